@@ -985,11 +985,13 @@ func (h *headReader) Read(ctx context.Context, out frame.Frame) (n int, err erro
 	if h.n <= 0 {
 		return 0, sliceio.EOF
 	}
+	if h.n < out.Len() {
+		// Read no more than the rows still wanted: rows of out beyond the
+		// returned count must not be written.
+		out = out.Slice(0, h.n)
+	}
 	n, err = h.reader.Read(ctx, out)
 	h.n -= n
-	if h.n < 0 {
-		n -= -h.n
-	}
 	return
 }
 
